@@ -74,6 +74,13 @@ class Field(object):
             return float(v)
         return v
 
+    def ones_value(self):
+        """the number a numeric field's all-ones pattern would be if it were not the missing indicator"""
+        v = all_ones(self.nbits) + self.ref
+        if self.scale == 0:
+            return v
+        return float(Fraction(v) / (Fraction(10) ** self.scale))
+
     def describe(self):
         return {'label': self.label, 'kind': self.kind, 'nbits': self.nbits, 'scale': self.scale,
                 'ref': self.ref}
